@@ -30,7 +30,7 @@ EXPLANATION = (
     'request-specific argument. R5: the memo sites on call cycles through EvalCtx.evaluate and the readers of the '
     'partial-table memos are compared with the sets triaged on the reference tree; a new one is reported. R6: a memo written '
     'in the try/except-AttributeError idiom stores exactly the value its first call returns. Equality of '
-    'answers under concrete query orders beyond those shapes is NOT decided.')
+    'answers under concrete query orders beyond those shapes is NOT decided. R1 loop model: a fourth body mode with two-armed (if/else) body statements.')
 TECHNIQUE = 'memo-site inventory + typed call-graph cycle analysis through re-entrancy-guarded functions + abstract interpretation of the memo decorators and of the evaluation guard'
 
 SCOPE = 'supp/scope.py'
